@@ -213,6 +213,8 @@ def gen_case(rng, pool, big=False, avoid_trunc=True):
         heavy = rng.random() < 0.35                 # many / long / escape-heavy arguments: text beyond 1 KiB and 2 KiB
         letters = "ssscpu" + ("tfdixo" if rng.random() < 0.5 else "")
         argkinds = "".join(rng.choice(letters) for _ in range(rng.randrange(4, 11) if heavy else rng.randrange(1, 4)))
+        if tsize == 0 and set(argkinds) <= {"t"}:
+            tsize = 8           # empty structs only = an empty payload = a record without arguments
 
         def one_string(long_ok):
             k = rng.randrange(7)
